@@ -65,8 +65,27 @@ void pct_case(const std::vector<tvalue>& values, int64_t p8)
     }
 }
 
+// the vector accessors agree with the per-bin getters
+bool same_or_nan(const double a, const double b)
+{
+    return (std::isnan(a) && std::isnan(b)) || a == b;
+}
+
+bool vectors_ok(const histogram_t& h)
+{
+    auto ok = h.counts().size() == h.bins() && h.means().size() == h.bins() && h.medians().size() == h.bins() && h.thresholds().size() + 1 == h.bins();
+    for (tensor_size_t b = 0; ok && b < h.bins(); ++b)
+    {
+        ok = h.counts()(b) == h.count(b) && same_or_nan(h.means()(b), h.mean(b)) && same_or_nan(h.medians()(b), h.median(b));
+    }
+    return ok;
+}
+
+// `equidistant` > 0: the overloads taking the number of bins (ratios, percentiles), `args` are then the ratios / percentages that the
+// documentation defines (k / bins resp. 100 k / bins, k = 1..bins-1) for re-computation by TLC; exponents: base `base` and `epsilon`
 template <class tvalue>
-void hist_case(const std::vector<tvalue>& values, const std::string& ctor, const std::vector<double>& args, const std::vector<double>& queries)
+void hist_case(const std::vector<tvalue>& values, const std::string& ctor, const std::vector<double>& args, const std::vector<double>& queries,
+               const tensor_size_t equidistant = 0, const double base = 2.0, const double epsilon = 0.0)
 {
     auto                      copy = values;
     tensor_mem_t<scalar_t, 1> targs(static_cast<tensor_size_t>(args.size()));
@@ -83,7 +102,7 @@ void hist_case(const std::vector<tvalue>& values, const std::string& ctor, const
     }
     else if (ctor == "ratios")
     {
-        h = histogram_t::make_from_ratios(copy.begin(), copy.end(), targs);
+        h = equidistant > 0 ? histogram_t::make_from_ratios(copy.begin(), copy.end(), equidistant) : histogram_t::make_from_ratios(copy.begin(), copy.end(), targs);
         for (const auto a : args)
         {
             largs.push_back(lat(a, 8.0));
@@ -91,7 +110,8 @@ void hist_case(const std::vector<tvalue>& values, const std::string& ctor, const
     }
     else if (ctor == "percentiles")
     {
-        h = histogram_t::make_from_percentiles(copy.begin(), copy.end(), targs);
+        h = equidistant > 0 ? histogram_t::make_from_percentiles(copy.begin(), copy.end(), equidistant) :
+                              histogram_t::make_from_percentiles(copy.begin(), copy.end(), targs);
         for (const auto a : args)
         {
             largs.push_back(lat(a, 8.0));
@@ -99,7 +119,7 @@ void hist_case(const std::vector<tvalue>& values, const std::string& ctor, const
     }
     else
     {
-        h = histogram_t::make_from_exponents(copy.begin(), copy.end(), 2.0);
+        h = epsilon > 0.0 ? histogram_t::make_from_exponents(copy.begin(), copy.end(), base, epsilon) : histogram_t::make_from_exponents(copy.begin(), copy.end(), base);
     }
     std::vector<int64_t> thr, counts, sums, medians2, lq, bins, lv;
     for (const auto v : values)
@@ -131,7 +151,163 @@ void hist_case(const std::vector<tvalue>& values, const std::string& ctor, const
         }
     }
     vt::put(vt::J("Hist").s("ctor", ctor).a("vals", lv).a("args", largs).a("thr", thr).a("counts", counts).a("sums", sums).a("medians2", medians2).a(
-        "queries", lq).a("bins", bins));
+        "queries", lq).a("bins", bins).i("equidistant", equidistant).b("vecOK", vectors_ok(h)));
+}
+
+// ---- real-valued oracle (environment predicates): thresholds that are not on the lattice (equidistant ratios / percentiles for any number of
+// bins, exponents with any base and epsilon incl. values at and below epsilon): the clauses of the property relative to the reported
+// thresholds are decided by the driver with a naive re-computation
+struct histf_t
+{
+    bool sumOK{true}, partOK{true}, binOK{true}, vecOK{true}, sortedOK{true};
+};
+
+int64_t bin_of(const std::vector<double>& thr, const double v)
+{
+    int64_t bin = 0;
+    for (const auto t : thr)
+    {
+        bin += t <= v ? 1 : 0; // the counting rule: a value goes to the right of every threshold it reaches
+    }
+    return bin;
+}
+
+histf_t check_hist(const histogram_t& h, std::vector<double> values, std::vector<double> queries)
+{
+    histf_t out;
+    std::sort(values.begin(), values.end());
+    std::vector<double> thr;
+    for (tensor_size_t i = 0; i < h.thresholds().size(); ++i)
+    {
+        thr.push_back(h.thresholds()(i));
+        out.sortedOK = out.sortedOK && (i == 0 || h.thresholds()(i - 1) <= h.thresholds()(i));
+    }
+    out.vecOK = vectors_ok(h);
+    if (h.bins() != static_cast<tensor_size_t>(thr.size()) + 1)
+    {
+        out.partOK = false;
+        return out;
+    }
+    tensor_size_t total = 0;
+    for (tensor_size_t b = 0; b < h.bins(); ++b)
+    {
+        std::vector<double> in;
+        long double         sum = 0, big = 0;
+        for (const auto v : values)
+        {
+            if (bin_of(thr, v) == b)
+            {
+                in.push_back(v);
+                sum += v;
+                big = std::max<long double>(big, std::fabs(v));
+            }
+        }
+        total += h.count(b);
+        out.partOK = out.partOK && h.count(b) == static_cast<tensor_size_t>(in.size());
+        if (in.empty())
+        {
+            out.partOK = out.partOK && std::isnan(h.mean(b)) && std::isnan(h.median(b));
+        }
+        else
+        {
+            const auto n   = in.size();
+            const auto med = (static_cast<long double>(in[(n - 1) / 2]) + static_cast<long double>(in[n / 2])) / 2; // position 50 (n - 1) / 100
+            const auto tol = 1e-12L * std::max<long double>(big, 1e-300L);
+            out.partOK     = out.partOK && std::fabs(h.mean(b) - sum / n) <= tol && std::fabs(h.median(b) - med) <= tol;
+        }
+    }
+    out.sumOK = total == static_cast<tensor_size_t>(values.size());
+    // queries: given ones, every threshold and its neighbours, every value, far away
+    for (const auto t : thr)
+    {
+        queries.push_back(t);
+        queries.push_back(std::nextafter(t, std::numeric_limits<double>::infinity()));
+        queries.push_back(std::nextafter(t, -std::numeric_limits<double>::infinity()));
+    }
+    queries.insert(queries.end(), values.begin(), values.end());
+    queries.push_back(1e300);
+    queries.push_back(-1e300);
+    queries.push_back(0.0);
+    for (const auto q : queries)
+    {
+        out.binOK = out.binOK && h.bin(q) == bin_of(thr, q);
+    }
+    return out;
+}
+
+void put_histf(const std::string& ctor, const int64_t n, const histogram_t& h, const histf_t& r, const bool thrOK)
+{
+    vt::put(vt::J("HistF").s("ctor", ctor).i("n", n).i("bins", h.bins()).b("thrOK", thrOK).b("sortedOK", r.sortedOK).b("sumOK", r.sumOK).b("partOK", r.partOK).b(
+        "binOK", r.binOK).b("vecOK", r.vecOK));
+}
+
+// the overloads taking the number of bins, for any number of bins: thresholds at the ratios k / bins of the range resp. at the percentages
+// 100 k / bins (k = 1..bins-1), as the documentation defines them
+template <class tvalue>
+void equidistant_case(const std::vector<tvalue>& values, const tensor_size_t bins, const std::vector<double>& queries)
+{
+    std::vector<double> sorted;
+    for (const auto v : values)
+    {
+        sorted.push_back(static_cast<double>(v));
+    }
+    std::sort(sorted.begin(), sorted.end());
+    const auto n = static_cast<int64_t>(sorted.size());
+    const auto lo = sorted.front(), hi = sorted.back();
+    const auto scale = std::max({std::fabs(lo), std::fabs(hi), 1e-300});
+    {
+        const auto ratios = make_equidistant_ratios(bins);
+        auto       copy = values;
+        const auto h    = histogram_t::make_from_ratios(copy.begin(), copy.end(), bins);
+        auto       copy2 = values;
+        const auto h2    = histogram_t::make_from_ratios(copy2.begin(), copy2.end(), ratios); // the explicit version with the same ratios
+        auto       thrOK = ratios.size() == bins - 1 && h.thresholds().size() == bins - 1 && h2.thresholds().size() == bins - 1;
+        for (tensor_size_t k = 1; thrOK && k < bins; ++k)
+        {
+            const auto ratio = static_cast<double>(k) / static_cast<double>(bins);
+            thrOK = std::fabs(ratios(k - 1) - ratio) <= 1e-12 && std::fabs(h.thresholds()(k - 1) - (lo + ratio * (hi - lo))) <= 1e-12 * scale &&
+                    std::fabs(h.thresholds()(k - 1) - h2.thresholds()(k - 1)) <= 1e-12 * scale;
+        }
+        put_histf("ratios", n, h, check_hist(h, sorted, queries), thrOK);
+    }
+    {
+        const auto percentages = make_equidistant_percentiles(bins);
+        auto       copy = values;
+        const auto h    = histogram_t::make_from_percentiles(copy.begin(), copy.end(), bins);
+        auto       thrOK = percentages.size() == bins - 1 && h.thresholds().size() == bins - 1;
+        for (tensor_size_t k = 1; thrOK && k < bins; ++k)
+        {
+            const auto p = 100.0 * static_cast<double>(k) / static_cast<double>(bins);
+            thrOK        = std::fabs(percentages(k - 1) - p) <= 1e-10;
+            // the value(s) at position p (n - 1) / 100 of the sorted list; when that position is an integer up to the rounding of p (which
+            // is not a dyadic number in general) the element itself or the mid-point with either neighbour
+            const long double position = static_cast<long double>(k) * static_cast<long double>(n - 1) / static_cast<long double>(bins);
+            const auto        near     = std::llround(position);
+            const auto        mid      = [&](const int64_t a, const int64_t b)
+            { return (sorted[static_cast<size_t>(std::clamp<int64_t>(a, 0, n - 1))] + sorted[static_cast<size_t>(std::clamp<int64_t>(b, 0, n - 1))]) / 2; };
+            std::vector<double> accepted;
+            if (std::fabs(position - static_cast<long double>(near)) <= 1e-9L)
+            {
+                accepted = {mid(near, near), mid(near - 1, near), mid(near, near + 1)};
+            }
+            else
+            {
+                accepted = {mid(static_cast<int64_t>(std::floor(position)), static_cast<int64_t>(std::ceil(position)))};
+            }
+            const auto got = h.thresholds()(k - 1);
+            thrOK = thrOK && std::any_of(accepted.begin(), accepted.end(), [&](const double a) { return std::fabs(got - a) <= 1e-12 * scale; });
+        }
+        put_histf("percentiles", n, h, check_hist(h, sorted, queries), thrOK);
+    }
+}
+
+// thresholds derived from exponents, for any base and epsilon (values at and below epsilon are clamped to it)
+void exponents_case(const std::vector<double>& values, const double base, const double epsilon, const std::vector<double>& queries)
+{
+    auto       copy = values;
+    const auto h    = epsilon > 0.0 ? histogram_t::make_from_exponents(copy.begin(), copy.end(), base, epsilon) : histogram_t::make_from_exponents(copy.begin(), copy.end(), base);
+    // (how the thresholds are derived is not documented: the clauses relative to the reported thresholds apply)
+    put_histf("exponents", static_cast<int64_t>(values.size()), h, check_hist(h, values, queries), h.thresholds().size() >= 1);
 }
 
 void stats_case(const std::vector<double>& values)
@@ -198,6 +374,9 @@ int main(int argc, char* argv[])
             }
             hist_case(values, "ratios", {0.25, 0.5}, queries);
             hist_case(values, "percentiles", {25.0, 62.5}, queries);
+            // the overloads taking the number of bins: equidistant ratios / percentages
+            hist_case(values, "ratios", {0.25, 0.5, 0.75}, queries, 4);
+            hist_case(values, "percentiles", {20.0, 40.0, 60.0, 80.0}, queries, 5);
             stats_case(values);
         }
     }
@@ -260,6 +439,70 @@ int main(int argc, char* argv[])
             pvalues.push_back(v == 0.0 ? 0.25 : v);
         }
         hist_case(pvalues, "exponents", {}, qs);
+        // the overloads taking the number of bins, with numbers of bins that keep the thresholds on the lattice (re-computed by TLC) ...
+        {
+            // (many bins on short lists only: the re-computation by TLC is cubic)
+            const auto rbins = rng.pick(std::vector<tensor_size_t>{2, 4, 8});
+            const auto pbins = n > 60 ? rng.pick(std::vector<tensor_size_t>{2, 4, 5, 8, 10}) : rng.pick(std::vector<tensor_size_t>{2, 4, 5, 8, 10, 16, 20, 25, 32, 40, 50});
+            std::vector<double> eratios, epercentages;
+            for (tensor_size_t k = 1; k < rbins; ++k)
+            {
+                eratios.push_back(static_cast<double>(k) / static_cast<double>(rbins));
+            }
+            for (tensor_size_t k = 1; k < pbins; ++k)
+            {
+                epercentages.push_back(100.0 * static_cast<double>(k) / static_cast<double>(pbins));
+            }
+            if (rng.coin())
+            {
+                hist_case(values, "ratios", eratios, qs, rbins);
+                hist_case(ivalues, "percentiles", epercentages, qs, pbins);
+            }
+            else
+            {
+                hist_case(ivalues, "ratios", eratios, qs, rbins);
+                hist_case(values, "percentiles", epercentages, qs, pbins);
+            }
+        }
+        // ... and with any number of bins, on lattice and on real values (decided by the driver)
+        {
+            std::vector<double> rvalues;
+            const auto          magnitude = std::pow(10.0, rng.uniform(-3.0, 3.0));
+            for (int64_t k = 0; k < n; ++k)
+            {
+                rvalues.push_back(rng.coin(1, 6) && k > 0 ? rvalues.back() : magnitude * rng.uniform(-1.0, 1.0));
+            }
+            equidistant_case(values, rng.range(2, 20), qs);
+            equidistant_case(ivalues, rng.range(2, 20), qs);
+            equidistant_case(rvalues, rng.range(2, 20), qs);
+            // exponents: other bases, values at and below epsilon (zeros, tiny values of both signs), the default and other values of epsilon
+            const auto base    = rng.pick(std::vector<double>{2.0, 3.0, 10.0, 1.5, 2.718281828459045, 1.01 + rng.uniform(0.0, 4.0)});
+            const auto epsilon = rng.pick(std::vector<double>{0.0, 0.0, 1e-12, 1e-3, 0.25, 1.0, 7.0});
+            const auto eps     = epsilon > 0.0 ? epsilon : std::numeric_limits<double>::epsilon();
+            auto       evalues = rng.coin() ? rvalues : values;
+            for (auto& v : evalues)
+            {
+                switch (rng.range(0, 11))
+                {
+                case 0: v = 0.0; break;
+                case 1: v = rng.coin() ? eps : -eps; break;
+                case 2: v = (rng.coin() ? 1.0 : -1.0) * eps * rng.uniform(0.0, 1.0); break;
+                case 3: v = (rng.coin() ? 1.0 : -1.0) * eps * (1.0 + rng.uniform(0.0, 1.0)); break;
+                default: break;
+                }
+            }
+            exponents_case(evalues, base, epsilon, qs);
+            // ... and on the lattice (re-computed by TLC): bases whose powers from epsilon on are multiples of 1/64, whatever way the
+            // exponent of a power of the base is rounded
+            const auto [lbase, lepsilon] = rng.pick(std::vector<std::pair<double, double>>{{2.0, 0.0625}, {4.0, 0.25}, {8.0, 1.0}, {16.0, 1.0}, {3.0, 1.0}, {10.0, 1.0}});
+            std::vector<double> lvalues;
+            for (const auto v : values)
+            {
+                // values at and below epsilon (zero included), of both signs, besides the others
+                lvalues.push_back(rng.coin(1, 4) ? (rng.coin() ? 1.0 : -1.0) * lepsilon * static_cast<double>(rng.range(0, 4)) / 4.0 : v);
+            }
+            hist_case(lvalues, "exponents", {}, qs, 0, lbase, lepsilon);
+        }
         stats_case(values);
     }
     // integer percentages whose position p (n - 1) / 100 is integral: the percentile is exactly one element of the sorted list (a position
